@@ -586,7 +586,8 @@ func TestVerifC04NoPlaintextFreshNonces(t *testing.T) {
 	rapid.Check(t, func(t *rapid.T) {
 		c := vCaseC04{Seed: rapid.Uint64().Draw(t, "markerSeed")}
 		c.Version = rapid.SampledFrom([]string{"1", "2", "2", "2"}).Draw(t, "version")
-		c.Compression = rapid.SampledFrom([]string{"auto", "off", "max", "fastest", "better"}).Draw(t, "compression")
+		// max/better are rarer: klauspost/zstd zeroes GOMAXPROCS large encoder tables per opened repository at these levels
+		c.Compression = rapid.SampledFrom([]string{"auto", "auto", "auto", "off", "off", "off", "fastest", "fastest", "max", "better"}).Draw(t, "compression")
 		scan := &vScanC04{}
 		g := &vGenC04{seed: c.Seed, scan: scan}
 
@@ -644,37 +645,41 @@ func TestVerifC04NoPlaintextFreshNonces(t *testing.T) {
 		}
 		backup(false)
 
+		// change the source (drop some entries, add new ones with fresh markers) and back it up again
+		changeAndBackup := func() string {
+			var ps []string
+			for p := range tr {
+				ps = append(ps, p)
+			}
+			sort.Strings(ps)
+			for _, p := range ps {
+				if tr[p].Kind != 'd' && rapid.IntRange(0, 2).Draw(t, "drop") == 0 {
+					if err := os.Remove(filepath.Join(src, filepath.FromSlash(p))); err != nil {
+						t.Fatal(err)
+					}
+					delete(tr, p)
+				}
+			}
+			add := map[string]*vEntC04{}
+			g.tree(t, add, &dirs, rapid.IntRange(1, 4).Draw(t, "added"), &c.Content, false)
+			if _, err := vMaterializeC04(src, add); err != nil {
+				t.Fatal(err)
+			}
+			for p, en := range add {
+				tr[p] = en
+			}
+			force := rapid.Bool().Draw(t, "force")
+			backup(force)
+			return fmt.Sprintf("backup(force=%v)", force)
+		}
+
 		nops := rapid.IntRange(1, 5).Draw(t, "nops")
 		repacked := false
 		for i := 0; i < nops; i++ {
 			op := rapid.SampledFrom([]string{"backup", "backup", "forgetprune", "forgetprune", "tag", "rewrite", "copy", "copy", "keyadd", "upgrade", "check"}).Draw(t, "op")
 			switch op {
 			case "backup":
-				// change the source: drop some entries, add new ones with fresh markers
-				var ps []string
-				for p := range tr {
-					ps = append(ps, p)
-				}
-				sort.Strings(ps)
-				for _, p := range ps {
-					if tr[p].Kind != 'd' && rapid.IntRange(0, 2).Draw(t, "drop") == 0 {
-						if err := os.Remove(filepath.Join(src, filepath.FromSlash(p))); err != nil {
-							t.Fatal(err)
-						}
-						delete(tr, p)
-					}
-				}
-				add := map[string]*vEntC04{}
-				g.tree(t, add, &dirs, rapid.IntRange(1, 4).Draw(t, "added"), &c.Content, false)
-				if _, err := vMaterializeC04(src, add); err != nil {
-					t.Fatal(err)
-				}
-				for p, en := range add {
-					tr[p] = en
-				}
-				force := rapid.Bool().Draw(t, "force")
-				backup(force)
-				op = fmt.Sprintf("backup(force=%v)", force)
+				op = changeAndBackup()
 			case "forgetprune":
 				ids, err := e.SnapshotIDs()
 				if err != nil {
@@ -682,7 +687,12 @@ func TestVerifC04NoPlaintextFreshNonces(t *testing.T) {
 				}
 				sns, _ := e.Snapshots()
 				if len(sns) < 2 {
-					op = "prune"
+					// a second snapshot of a changed tree, so that forgetting the first leaves partly used packs
+					c.Ops = append(c.Ops, changeAndBackup())
+					sns, _ = e.Snapshots()
+				}
+				if len(sns) < 2 {
+					t.Fatalf("harness: %d snapshots after two backups", len(sns))
 				} else if _, err := e.Forget(ForgetOptions{}, PruneOptions{}, sns[0].ID().String()); err != nil {
 					t.Fatalf("forget: %v (of %v)", err, ids)
 				}
